@@ -38,6 +38,8 @@ def lookahead(P, R):
 
     def is_ws(val):
         return isinstance(val, dict) and val.get('k') == 'callref' and val.get('callee') == 'conf_parse_whitespace'
+    # the lookahead variables: whatever receives the result of a whitespace read
+    lookvars = {s.ev['lhs']['name'] for s in f.stores() if s.ev['k'] == 'store' and is_var(s.ev.get('lhs')) and is_ws(s.ev.get('rhs'))}
 
     def on_event(st, s):
         chars, unread = st
@@ -64,7 +66,7 @@ def lookahead(P, R):
     def on_edge(st, e):
         chars, unread = st
         r = rules.edge_rel(e)
-        if r and is_var(r[0]) and r[0]['name'].startswith('ch') and const_of(r[2]) is not None and chars is not None:
+        if r and is_var(r[0]) and r[0]['name'] in lookvars and const_of(r[2]) is not None and chars is not None:
             c = const_of(r[2])
             key = c if c in U else -1
             if r[1] == '==':
